@@ -72,7 +72,8 @@ def _expected_structs(reach):
 
 
 LAYOUTS = ["imports-first", "annotation-before-imports", "annotation-after-first-import", "comment-and-pi-between-imports",
-           "import-with-annotation-child", "schemaLocation-before-namespace", "annotation-after-every-import"]
+           "import-with-annotation-child", "schemaLocation-before-namespace", "annotation-after-every-import",
+           "schemaLocation-with-dot-slash", "schemaLocation-with-dot-slashes"]
 
 
 def _judge_c11(v, job, res, stats):
@@ -299,8 +300,8 @@ def c11(tier):
                     rot = k % len(pool)
                     new_name = {f"f{i}.xsd": pool[(i + rot) % len(pool)] for i in range(n)}
                     for name, t in texts.items():
-                        for old_n, new_n in new_name.items():
-                            t = t.replace(f'"{old_n}"', f'"{new_n}"')
+                        # (the location may be spelt "./f1.xsd")
+                        t = re.sub(r'(?<=["/])f\d+\.xsd(?=")', lambda m: new_name.get(m.group(0), m.group(0)), t)
                         with open(os.path.join(d, new_name[name]), "w", encoding="utf-8") as fh:
                             fh.write(t)
                     dir_jobs.append({"id": 20_000_000 + len(dir_jobs), "op": "gen", "dir": d, "start": new_name[f"f{s}.xsd"], "variant": variant,
